@@ -459,5 +459,10 @@ def run(db, chk):
     check_writer_gate(db, chk)
     check_storage_version_dom(db, chk)
     check_versions(db, chk)
+    # "the flags written always reflect the table contents": every manifest passes write_manifest_file last (commits, clones,
+    # branch creation), and there the flags are recomputed from the final manifest before the handler publishes it (rule shared
+    # with C05: build_manifest computes them before config / base paths are applied, and clones never go through it)
+    from . import C05
+    chk.rule("DOM-publish", "the flags of the manifest being published are recomputed in write_manifest_file before commit")
+    C05.check_flags_before_commit(db, chk, "DOM-publish")
     chk.extra["exhaustive"] = True
-    chk.assume("the reader/writer flag words published are those computed by apply_feature_flags (write_manifest_file, see C05)")
